@@ -229,6 +229,7 @@ theorem apply0_started (w : World) (l : Label) (x : EId) (b : BId) (k : HId) (hx
   case wiCancel => simpa [apply0] using h
   case expectTimeout x' => simp only [apply0]; split <;> simpa using h
   case expectCancelReq x' => simp only [apply0]; split <;> simpa using h
+  case hSkip p_ b_ e_ k_ => simp only [apply0]; split <;> simpa using h
   case stopBegin => simpa [apply0] using h
   case stopNoop => simpa [apply0] using h
   case stopEnd x' => simp only [apply0]; split <;> (try split) <;> simpa using h
@@ -365,6 +366,7 @@ theorem apply0_inst_id (w : World) (l : Label) (j : IId) (hj : j < w.ni) (hg : g
   case wiCancel => simp [apply0]
   case expectTimeout x' => simp only [apply0]; split <;> simp
   case expectCancelReq x' => simp only [apply0]; split <;> simp
+  case hSkip p_ b_ e_ k_ => simp only [apply0]; split <;> simp
   case stopBegin => simp [apply0]
   case stopNoop => simp [apply0]
   case stopEnd x => simp only [apply0]; split <;> (try split) <;> simp
